@@ -12,3 +12,17 @@ package matchrule
 //@   requires r.maxValueSize >= 0
 //@   loop 1 invariant true
 //@   loop 2 invariant true
+
+// Match: the configured inversion is applied to the outcome of the comparison for
+// every value, short ones included (no result is produced before the inversion).
+
+//@ func (*Rule).Match
+//@   option allow-panic yes
+//@   requires r.maxValueSize >= 0
+//@   ghost gm bool = false
+//@   ghost ncmp int = 0
+//@   ensures ncmp == 1 && result == (gm != r.Invert)
+//@   callee match(raw) (m)
+//@     pure
+//@     set gm := m
+//@     set ncmp := ncmp + 1
